@@ -196,7 +196,39 @@ def host_info(src, reg):
             bound = {t.id for g in n.generators for t in ast.walk(g.target) if isinstance(t, ast.Name)}
             if bound & {t.id for t in ast.walk(n.generators[0].iter) if isinstance(t, ast.Name)}:
                 comp_self = True
-    return {"comp_self": comp_self, "walrus": any(isinstance(n, ast.NamedExpr) for n in scope_nodes),
+    # does the region read a variable that an enclosing lambda / comprehension binds?
+    reads_inner = False
+    target = None
+    for n in scope_nodes:
+        if isinstance(n, ast.expr) and hasattr(n, "lineno") and pos.span(n) == (reg["start"], reg["end"]):
+            target = n
+            break
+    if target is not None:
+        loaded = {t.id for t in ast.walk(target) if isinstance(t, ast.Name) and isinstance(t.ctx, ast.Load)}
+        for a in srcpos.ancestors(target):
+            if isinstance(a, ast.Lambda):
+                ar = a.args
+                if loaded & {x.arg for x in ar.posonlyargs + ar.args + ar.kwonlyargs + [y for y in (ar.vararg, ar.kwarg) if y]}:
+                    reads_inner = True
+            elif isinstance(a, (ast.ListComp, ast.SetComp, ast.DictComp, ast.GeneratorExp)):
+                if loaded & {t.id for g in a.generators for t in ast.walk(g.target) if isinstance(t, ast.Name)}:
+                    reads_inner = True
+            elif isinstance(a, (ast.FunctionDef, ast.AsyncFunctionDef)):
+                break
+    # scope that encloses the outermost lambda / comprehension around the region
+    inner_in = None
+    if target is not None:
+        for a in srcpos.ancestors(target):
+            if isinstance(a, (ast.FunctionDef, ast.AsyncFunctionDef)):
+                inner_in = "function"
+                break
+            if isinstance(a, ast.ClassDef):
+                inner_in = "class"
+                break
+        else:
+            inner_in = "module"
+    return {"comp_self": comp_self, "reads_inner": reads_inner, "exact_expr": target is not None, "inner_in": inner_in,
+            "walrus": any(isinstance(n, ast.NamedExpr) for n in scope_nodes),
             "annassign": any(isinstance(n, ast.AnnAssign) for n in scope_nodes),
             "unannotated": unannotated, "super_in_region": "super" in region_text,
             "host_decl": any(isinstance(n, (ast.Global, ast.Nonlocal)) for n in scope_nodes)}
@@ -219,7 +251,13 @@ def hostile_labels(reg, kind, host, opts):
         labels.append("module-scope")
     if reg["scope"] == "class-body":
         labels.append("class-body")
-    if reg["scope"] in ("lambda", "comprehension"):
+    if reg["scope"] in ("lambda", "comprehension") and host.get("inner_in") == "class":
+        labels.append("class-body")
+    if reg["scope"] in ("lambda", "comprehension") and host.get("inner_in") == "module":
+        labels.append("module-scope")
+    if reg["scope"] in ("lambda", "comprehension") and (host.get("reads_inner") or not host.get("exact_expr")):
+        # a region that reads the lambda's parameter / the comprehension's variable; a sub-expression that does
+        # not is ordinary code of the enclosing function and stays in the core
         labels.append("inside-lambda-or-comprehension")
     if opts["similar"]:
         labels.append("similar-option")
@@ -282,9 +320,13 @@ def enumerate_regions(src, rnd, limit):
             s, e = pos.span(node)
             exprs.append({"cls": "expr", "start": s, "end": e, "scope": _scope_kind(node), "feat": type(node).__name__,
                           "ctx": _expr_context(node), "loop": _in_loop(node), "elif": _in_elif_test(node, src, pos),
-                          "multiline": "\n" in src[s:e]})
+                          "multiline": "\n" in src[s:e],
+                          "cont": any(isinstance(a, ast.stmt) and a.lineno < node.lineno for a in list(srcpos.ancestors(node))[:40]
+                                      if isinstance(a, ast.stmt))})
     rnd.shuffle(regions)
     rnd.shuffle(exprs)
+    # expressions that start on a continuation line of their statement first (only re-laid-out modules have any)
+    exprs.sort(key=lambda r: not (r["cont"] and not r["multiline"]))
     picked = regions[: limit // 2] + exprs[: limit - limit // 2]
     # bad regions
     for _ in range(2):
